@@ -1,6 +1,7 @@
 package main
 
 import (
+	"encoding/hex"
 	"encoding/json"
 	"fmt"
 	"math"
@@ -100,6 +101,10 @@ func c15Domain(tier string) []gv {
 	if tier == "quick" {
 		f64 = []float64{0, 1, -1, 0.5, 1.5, -1.5, 10, 9, 1e6, 9007199254740992, 0.1}
 	}
+	// whole floats at the edges of the integer kinds (2^63 is what the literal 9223372036854775807 parses to), and
+	// neighbours one ulp apart / results of float arithmetic that a tolerance would merge
+	f64 = append(f64, 9223372036854775808, -9223372036854775808, 4611686018427387904, 18446744073709551616, 2147483648,
+		0.3, 0.1+0.2, math.Nextafter(1.5, 2), math.Nextafter(math.Nextafter(1.5, 2), 2), math.Nextafter(1, 0))
 	for _, f := range f64 {
 		d = append(d, gv{"float64", strconv.FormatFloat(f, 'x', -1, 64)})
 	}
@@ -112,8 +117,13 @@ func c15Domain(tier string) []gv {
 	for _, f := range f32 {
 		d = append(d, gv{"float32", strconv.FormatFloat(float64(f), 'x', -1, 32)})
 	}
-	for _, s := range []string{"", "1", "1.5", "10", "9", "-1", "a", "ab", "abc", "b", "A", "0", "1e+06", "true", "<nil>", "0.1", "2.7", "07", "1.0"} {
+	for _, s := range []string{"", "1", "1.5", "10", "9", "-1", "a", "ab", "abc", "b", "A", "0", "1e+06", "true", "<nil>", "0.1", "2.7", "07", "1.0",
+		"\u00e9"} {
 		d = append(d, gv{"string", s})
+	}
+	// bytes that are not valid UTF-8 (hex-encoded: JSON would replace them): the order is by byte, not by decoded rune
+	for _, s := range []string{"caf\xe8", "caf\xe9", "\xc0", "\xff", "a\x80", "a\x81"} {
+		d = append(d, gv{"hexstring", hex.EncodeToString([]byte(s))})
 	}
 	d = append(d, gv{"nil", ""}, gv{"bool", "true"}, gv{"bool", "false"})
 	return d
@@ -135,6 +145,8 @@ func kindClass(k string) string {
 	switch k {
 	case "float32", "float64":
 		return "float"
+	case "hexstring":
+		return "string"
 	case "string", "nil", "bool":
 		return k
 	}
@@ -148,6 +160,9 @@ func (g gv) goValue() (any, error) {
 	switch g.K {
 	case "string":
 		return g.V, nil
+	case "hexstring":
+		b, err := hex.DecodeString(g.V)
+		return string(b), err
 	case "nil":
 		return nil, nil
 	case "bool":
@@ -196,6 +211,9 @@ func (g gv) coq() (string, bool) {
 	switch g.K {
 	case "string":
 		return "(GStr " + coqStr(g.V) + ")", true
+	case "hexstring":
+		b, _ := hex.DecodeString(g.V)
+		return "(GStr " + coqStr(string(b)) + ")", true
 	case "nil":
 		return "GNil", true
 	case "bool":
